@@ -495,6 +495,10 @@ impl<'a> Ctx<'a> {
         if let Some(l) = self.ext_stmt(e, conts)? {
             return Ok(l);
         }
+        // absmod.rs (opt-in, `PlanExt::join_ifs`): `if [let PAT =] e { … }` that only updates one outer local
+        if let Some(l) = self.join_if_stmt(e, conts)? {
+            return Ok(l);
+        }
         match e {
             Expr::Paren(p) => self.stmt_expr(&p.expr, conts),
             Expr::Tuple(t) if t.elems.is_empty() => self.cont(conts),
